@@ -2,7 +2,7 @@
 From PSA Require Import gen.GoFacts model.Bytes model.Clients model.Ipdb model.Dhcp spec.SpecTable spec.SpecIpdb model.Server
   proofs.TableProofs proofs.LeaseProofs proofs.ServerProofs.
 From PSA Require Import spec.Monitors.
-From PSA Require Import spec.WireHyps spec.WireExample proofs.WireProofs proofs.WireInv proofs.WireLease proofs.WireSnap proofs.WireHypsProofs proofs.WireExampleProofs.
+From PSA Require Import spec.WireHyps spec.WireExample proofs.WireProofs proofs.WireInv proofs.WireLease proofs.WireSnap proofs.WireHypsProofs proofs.WireExampleProofs spec.WireExample2 proofs.WireExample2Proofs.
 Open Scope N_scope.
 
 (* (i) once an address is offered (held), the REQUEST for it arriving within the hold is acknowledged: the
@@ -108,6 +108,12 @@ Theorem C05_wire_nonvacuous : exists c h, wire_example = Some (c, h) /\ wire_pre
   length h = 6%nat /\ length (events c h) = 2%nat /\ length (flat_map r_outs h) = 3%nat.
 Proof. exact wire_example_full. Qed.
 Print Assumptions C05_wire_nonvacuous.
+
+(* ... and of a history in which two clients compete for one address and time decides (spec/WireExample2.v) *)
+Theorem C05_wire_nonvacuous_two_clients : exists c h, wire_example2 = Some (c, h) /\ wire_premises c h /\ accepted c h /\
+  length h = 7%nat /\ length (events c h) = 4%nat /\ distinct_pids (events c h) = 2%nat /\ length (flat_map r_outs h) = 6%nat.
+Proof. exact wire_example2_full. Qed.
+Print Assumptions C05_wire_nonvacuous_two_clients.
 
 Example C05_nonvacuous :
   let x := {| net_from := 10; net_to := 20; dyn_from := 12; dyn_to := 13; st := empty_store |} in
